@@ -9,3 +9,4 @@ INVARIANT InvRefines
 INVARIANT InvFreeList
 INVARIANT InvCapacityExact
 INVARIANT InvAppendAtRoom
+INVARIANT InvSweep
